@@ -331,7 +331,14 @@ func (r *rng) genArithCase(ops []string, specialPct int, aliasing bool, allowP0 
 			c.Y = r.genSecond(&ctx, c.X, specialPct)
 		}
 	}
-	if op == "Quantize" {
+	if (op == "Quantize" || op == "RoundToIntegralExact" || op == "RoundToIntegralValue") && r.coin(6) {
+		// a zero operand: one, two or many fraction digits, positive exponents, exponents at the package limits (a zero has
+		// no digits to lose and needs no padding, whatever the distance to the target exponent)
+		c.X = mkDec(apd.Finite, r.coin(50), big.NewInt(0), r.pick([]int{-1, -1, -2, -2, -3, -7, 0, 1, 5, 300, -300, 60000, -60000, 100000, -100000}))
+	}
+	if op == "Quantize" && c.X.Form == apd.Finite && c.X.Coeff.Sign() == 0 && r.coin(40) {
+		c.E = int32(r.pick([]int{0, 0, 1, -1, 2, -2, 50000, -50000, 100000, -100000, int(ctx.MinExponent) - int(ctx.Precision) + 1, int(ctx.MaxExponent)}))
+	} else if op == "Quantize" {
 		// target exponent relative to x's exponent and digits, and to etiny/emax
 		nd := int(c.X.NumDigits())
 		xe := int(c.X.Exponent)
@@ -410,6 +417,34 @@ func init() {
 // ---------- focused streams ----------
 
 func init() {
+	// Context.Cmp: pairs that are variants of each other (cmpVariant), exponents far apart - up to the whole width of the
+	// package's exponent range, where Add and Sub refuse to align but a comparison needs no alignment -, zeros and
+	// infinities against finite numbers
+	streams["ctxcmp"] = func(r *rng, n int) {
+		for i := 0; i < n; i++ {
+			c := r.genArithCase([]string{"Cmp"}, 10, true, true)
+			if c.X.Form == apd.Finite && r.coin(50) {
+				c.Y = r.cmpVariant(c.X)
+			}
+			if c.X.Form == apd.Finite && c.Y != nil && c.Y.Form == apd.Finite && r.coin(25) {
+				ex := r.rangeI(40000, 100000)
+				ey := r.rangeI(40000, 100000)
+				if r.coin(50) {
+					ex = -ex
+				} else {
+					ey = -ey
+				}
+				if r.coin(15) {
+					ey = ex // same huge exponent
+				}
+				c.X.Exponent, c.Y.Exponent = int32(ex), int32(ey)
+				if c.Alias == "xy" || c.Alias == "dxy" || c.Alias == "all" {
+					c.Alias = "n"
+				}
+			}
+			emit(runArith(c))
+		}
+	}
 	streams["quant"] = func(r *rng, n int) {
 		ops := []string{"Quantize", "Quantize", "RoundToIntegralValue", "RoundToIntegralExact", "Ceil", "Floor"}
 		for i := 0; i < n; i++ {
